@@ -258,12 +258,30 @@ def check(chk):
     n_players = 0
     for c in repo.subclasses(base):
         writes = []
+        # names bound to the per-context dict: locals assigned from _get_instance_dict(...) and, transitively, the
+        # parameters of own methods that receive such a local
+        alias_of = {m.name: set() for m in c.methods.values()}
         for meth in c.methods.values():
-            aliases = set()
             for x in walk_local(meth.node):
                 if isinstance(x, ast.Assign) and isinstance(x.value, ast.Call) and call_attr(x.value) == "_get_instance_dict" and \
                         isinstance(x.targets[0], ast.Name):
-                    aliases.add(x.targets[0].id)
+                    alias_of[meth.name].add(x.targets[0].id)
+        changed = True
+        while changed:
+            changed = False
+            for meth in c.methods.values():
+                for call in [x for x in ast.walk(meth.node) if isinstance(x, ast.Call) and isinstance(x.func, ast.Attribute)
+                             and src(x.func.value) in ("self", "cls") and x.func.attr in c.methods]:
+                    callee = c.methods[call.func.attr]
+                    params = [p_ for p_ in callee.params() if p_ not in ("self", "cls")]
+                    if any(d in ("staticmethod",) for d in callee.decorators()):
+                        params = callee.params()
+                    for i, a in enumerate(call.args):
+                        if isinstance(a, ast.Name) and a.id in alias_of[meth.name] and i < len(params) and params[i] not in alias_of[callee.name]:
+                            alias_of[callee.name].add(params[i])
+                            changed = True
+        for meth in c.methods.values():
+            aliases = alias_of[meth.name]
             for x in ast.walk(meth.node):
                 tgt = None
                 if isinstance(x, (ast.Assign, ast.AugAssign)):
@@ -293,7 +311,9 @@ def check(chk):
                    text="clear_context without reset in " + c.name)
             # the reset uses the same context key as the writer
             wctx = set()
-            for meth, _t in writes:
+            for meth in c.methods.values():
+                if meth.name == "clear_context":
+                    continue
                 for x in ast.walk(meth.node):
                     if isinstance(x, ast.Call) and call_attr(x) == "_get_instance_dict" and x.args:
                         wctx.add(src(x.args[0]))
@@ -515,6 +535,7 @@ def battery():
         M("handler set not reset", MD, "            self.machine.events.remove_handler_by_key(key)\n        self.event_handlers = set()", "            self.machine.events.remove_handler_by_key(key)", "DOM-15"),
         M("stop methods skipped when no callback", MD, "        for item in self.stop_methods:\n            item[0](item[1])", "        for item in (self.stop_methods if self.stop_callbacks else []):\n            item[0](item[1])", "DOM-15"),
         M("event player keeps condition state", EP, "    def clear_context(self, context):\n        \"\"\"Forget the condition values seen in this context.\"\"\"\n        self._reset_instance_dict(context)\n\n", "", "SIB-1"),
+        M("light player keeps its records after clear", "mpf/config_players/light_player.py", "            light.remove_from_stack_by_key(full_context)\n\n        self._reset_instance_dict(context)", "            light.remove_from_stack_by_key(full_context)\n", "SIB-1"),
         M("clear_context without reset", "mpf/config_players/coil_player.py", "        self._reset_instance_dict(context)", "        pass", "SIB-1"),
         M("mode_stop keeps handlers", CP, "        self.unload_player_events(self.mode_event_keys.pop(mode, list()))\n        self.clear_context(mode.name)", "        self.clear_context(mode.name)", "PAIR-8"),
         M("subscriptions not cancelled", CP, "        for future in key_list[1].values():\n            future.cancel()\n", "", "PAIR-8"),
